@@ -13,7 +13,9 @@ THEOREMS = ["handler_total", "bug_table", "grammar_alternation_partial", "gramma
             "no_failure_while_open_partial", "closed_on_disconnect", "notif_only_while_open",
             "no_bug_reachable_partial", "no_bug_next_partial", "no_bug_reachable_witness",
             "open_answered_once_partial", "open_after_late_failure", "open_answered_once_witness",
-            "inbound_after_accept_partial", "inbound_after_accept_witness"]
+            "inbound_after_accept_partial", "inbound_after_accept_witness",
+            "batch_open_answers_each", "batch_open_answered_once", "batch_results",
+            "handshake_bounded", "handshake_exact", "handshake_poll_order", "handshake_stale_result_witness"]
 MANIFEST = {
     "text": "Lean 4 theorems about an executable model of the notification per-peer state machine (all states, every "
             "handler in the code's order of checks, debug_assert branches as explicit bug outputs) composed with its "
@@ -35,11 +37,26 @@ MANIFEST = {
             "user's own request is outstanding. The unrestricted statements are false of the code: four witness theorems, "
             "replayed on the real component as known findings (grammar_alternation_witness needs no stalled close, "
             "only a task that is not polled: finding late-closed-report). "
+            "Coverage round: the handle's batch commands (Model/Notif/Handle.lean: one command for a set of peers, the "
+            "protocol walks the set in ANY order) - every peer of a batch makes exactly the step of a single open request, "
+            "peers with a stream are reported/ignored, the others are untouched (batch_open_answers_each, "
+            "batch_open_answered_once, batch_results); the handshake service (Model/Notif/Handshake.lean: entries with their "
+            "four states, timer first, pop_event first, any hash-map order) - a handshake above the configured maximum is "
+            "refused when read and when sent, never truncated, whatever is handed to the protocol is within the limit and is "
+            "exactly the first unread frame of that entry's substream (handshake_bounded, handshake_exact, "
+            "handshake_poll_order); handshake_stale_result_witness = the defect repaired in this round (a queued result "
+            "survived the removal of its substream and was attributed to the peer's next substream). "
             "Tie: seeded operation histories (2-3 peers, with/without auto-accept, simultaneous opens, rejections, "
             "handshake failures, substream open failures, drops and reconnects, timers, stalled closes, connection tasks "
             "held back by the scheduler across disconnect/reconnect/new negotiation) run on the real "
             "NotificationProtocol/NotificationHandle and on the model, every observation compared incl. internal peer "
-            "states; independent user-event-grammar oracle. Composition of tasks: an invariant proof over all schedules is "
+            "states; also: open/close batches (set order taken from the implementation, any permutation accepted), sink "
+            "clones used after close/reopen, handle async send, set_handshake, handshakes at/above the limit in both "
+            "directions, handshake timers, full command channels (handle->protocol, protocol->connection), the protocol "
+            "loop held back so that its inputs pile up, handle dropped => run() returns; independent user-event-grammar oracle "
+            "(plus: one answer per peer of a batch, no send accepted through a sink taken before a NotificationStreamClosed "
+            "the user has seen, no handshake/notification above the limit, a substream's first frame is never delivered as "
+            "a notification). Composition of tasks: an invariant proof over all schedules is "
             "the right level (the unit tests drive single transitions).",
     "note": "Trusted: Lean kernel; axioms propext/Classical.choice/Quot.sound; the hand-written model and its sampled tie; "
             "tokio mpsc FIFO; the transport obeys C08 (events only for connected peers, one answer per substream request); "
@@ -47,7 +64,9 @@ MANIFEST = {
     "technique": "Lean 4 proof (invariants of a labelled transition system) + model/implementation correspondence check",
     "design_ref": "DESIGN.md §7 C11, §8-j, §8-q; notes/selftest-C11.md (late-closed-report)",
 }
-RULE = ("seeded histories of transport events (conn/disc/dialfail/subout/subfail/subin), remote actions on in-memory "
+RULE = ("(coverage round: + openb/tryopenb/closeb/tryclosb, sink/ssend/sasend/sdrop/asend, seths, hstimeout, cfill/cdrain, "
+        "cmdhold/cmdfill/cmdrelease, phold/prelease, shutdown) "
+        "seeded histories of transport events (conn/disc/dialfail/subout/subfail/subin), remote actions on in-memory "
         "substreams (handshake, close, reset, read, notification, stalled close), user commands (open/close/accept/"
         "reject/send/events), scheduling commands (hold/unhold the Connection tasks of a peer) and timer expiries over 2-3 peers run on the real NotificationProtocol+Handle and on the "
         "Lean model; a case is non-trivial if at least one stream was opened or one open failure was reported; "
@@ -58,7 +77,12 @@ TRUSTED_BASE = ["Lean 4.33 kernel", "axioms: propext, Classical.choice, Quot.sou
                 "adapter /repo/src/verif/c11.rs + verif/io.rs (in-memory substreams), harness, verif.py, checks/c11.py",
                 "tokio mpsc channels are FIFO; biased select order mirrored by the driver's scheduler",
                 "futures_timer::Delay replaced by explicit timer events (any time: over-approximation)",
-                "transport events obey the C08 grammar (proved separately for TransportService)"]
+                "transport events obey the C08 grammar (proved separately for TransportService)",
+                "Model/Notif/{Handle,Handshake}.lean tied by the same run (the driver computes the batch results with "
+                "NotifHandle.* and polls the handshake service with NotifHs.poll on the entries loaded from its pipes)",
+                "hook HandshakeService::verif_timer (cfg litep2p_verif): lets one entry's futures_timer::Delay expire",
+                "events of DIFFERENT peers drained by one `events` are compared per peer (HashMap iteration order of one "
+                "handshake poll); the iteration order of an OpenSubstream peer set is read from the implementation"]
 ASSUMPTIONS = ["the transport answers each substream request at most once and only while the peer is connected (C08)",
                "partial theorems: a Connection task that has entered close_connection finishes (notice + closed report) "
                "before the protocol handles the next event for that peer (false only if Substream::close() stays pending)",
@@ -71,11 +95,53 @@ ASSUMPTIONS = ["the transport answers each substream request at most once and on
                "substream (validation answers are keyed by peer, not by substream)",
                "open_answered_once counts the user's own Reject of the peer's inbound substream as the answer to the "
                "user's outstanding open request (the code reports nothing in that case)",
-               "every spawned future is eventually polled; Substream::close() eventually completes"]
+               "every spawned future is eventually polled; Substream::close() eventually completes",
+               "adapter restrictions (schedules not explored): while a peer's connection task is held the user does not "
+               "mix sync and async sends towards it (select! order; C12's subject); a connection established while the "
+               "protocol loop is held is not closed before the loop has seen it; while the protocol loop is held the remote "
+               "side of only one peer acts on its substreams (which of several handshake entries with news is reported "
+               "first is decided by the service's hash-map order)",
+               "batch theorems: the per-peer worlds do not interact (all maps are keyed by peer or by a fresh substream id)"]
 KEEP_PREFIX = 1
+CONST_TABLE = [
+    ("DEFAULT_CHANNEL_SIZE", "src/lib.rs", r"const DEFAULT_CHANNEL_SIZE: usize = ([^;]+);", 4096),
+]
 
 PEERS = [1, 2, 3]
 ERR = {"rejected", "noconn", "clogged", "valpending", "dialfail", "taskclosed"}
+
+
+# ------------------------------------------------------------------ checker mode / comparison
+
+def model_lines(case, impl):
+    """Checker mode for ONE choice of the implementation: the iteration order of the peer set of a multi-peer
+    OpenSubstream command (a HashSet). The adapter prints it (`order=…`) with the operation during which the command
+    is handed to the protocol; the model driver follows any permutation of the set (and prints it back)."""
+    if impl is None:
+        return case
+    res = []
+    for i, op in enumerate(case):
+        o = impl[i] if i < len(impl) else ""
+        orders = [t for t in o.split() if t.startswith("order=")]
+        res.append(op + (" -> " + " ".join(orders) if orders else ""))
+    return res
+
+
+def normalize(line):
+    """Comparison of one observation line. Events of DIFFERENT peers have no defined order on the user channel when
+    they stem from one poll of the handshake service (it walks a HashMap): the tokens of an `events` answer are
+    compared per peer (stable sort by peer; the order of each peer's own events is compared exactly)."""
+    if line.startswith("panic"):
+        return "panic"
+    m = re.match(r"\[(.*?)\](.*)$", line)
+    if m and EV.search(m.group(1)):
+        toks = m.group(1).split()
+
+        def key(t):
+            e = EV.fullmatch(t)
+            return int(e.group(2)) if e else -1
+        return "[" + " ".join(sorted(toks, key=key)) + "]" + m.group(2)
+    return line
 
 
 # ------------------------------------------------------------------ generator
@@ -131,6 +197,125 @@ def frag_held_late(p, rng):
             + frag_in(p) + [f"unhold {p}", "events", "state"])
 
 
+def frag_batch(p, q, rng):
+    """`open_substream_batch` / `try_…`: one command for several peers (one already open, one unknown, duplicates)."""
+    op = rng.choice(["openb", "tryopenb"])
+    lst = rng.choice([f"{p},{q}", f"{q},{p},{p}", f"{p},{q},9", f"{p},{q}", f"7,{p},8,{q},9", f"9,8,{p},7,{q},6"])
+    rest = rng.choice([
+        [f"subout {p}", f"subout {q}", f"hs {p} out", f"hs {q} out", f"subin {p}", f"subin {q}", f"hs {p} in", f"hs {q} in",
+         "events", f"accept {p}", f"accept {q}", "events"],
+        [f"subfail {p}", f"subout {q}", f"rreset {q} out", "events"],
+        [f"disc {p}", f"subout {q}", f"hs {q} out", "events", f"conn {p}"],
+        ["events"]])
+    closing = rng.choice([[f"closeb {p},{q}", "events"], [f"tryclosb {q},{p},{p}", "events"], [f"closeb 9,{p}", "events"], []])
+    return [f"{op} {lst}", "events"] + rest + ["state"] + closing
+
+
+def frag_reuse(p, rng):
+    """The user's own request dies with the rejection of the peer's inbound substream; the outbound substream is still
+    being opened and is reused by the next request (`Closed { pending_open }` + `pending_outbound`)."""
+    end = rng.choice([[f"subout {p}", f"hs {p} out", f"subin {p}", f"hs {p} in", "events", f"accept {p}", "events"],
+                      [f"subfail {p}", "events"], [f"subout {p}", f"rclose {p} out", "events"]])
+    head = [f"open {p}", f"subin {p}", f"hs {p} in", "events", f"reject {p}", "state"]
+    if rng.random() < 0.3:
+        # the pending substream fails / opens while the peer is `Closed { pending_open }`, then a fresh request
+        return head + [rng.choice([f"subfail {p}", f"subout {p}"]), "state", f"open {p}", "state", f"subout {p}", f"hs {p} out",
+                       "events", "state"]
+    return head + [f"open {p}", "state"] + end
+
+
+def frag_clog(p, rng):
+    """Sync channel full behind a task that is not scheduled: ChannelClogged, one ForceClose, then the async side."""
+    n = rng.choice([2, 3, 17])
+    return (frag_in(p) + [f"hold {p}"] + [f"send {p} {i:02x}" for i in range(n)] + [f"sink {p}", f"ssend @{p} 77"]
+            + rng.choice([[f"unhold {p}", f"rread {p} out"], [f"close {p}", f"unhold {p}", "events", f"ssend @{p} 78"],
+                          [f"disc {p}", f"unhold {p}", "events", f"conn {p}"]])
+            + [f"hold {p}"] + [f"asend {p} a{i}" for i in range(rng.choice([1, 2, 5]))] + [f"sasend @{p} b0", f"unhold {p}",
+                                                                                          f"rread {p} out", "events", "state"])
+
+
+def frag_cfull(p, rng):
+    """The command channel of the connection is full (it is shared with the other protocols of the connection):
+    `service.open_substream` fails in `on_open_substream` and after an Accept."""
+    first = rng.choice([[f"open {p}", "events", "state"],
+                        [f"subin {p}", f"hs {p} in", "events", f"accept {p}", "events", "state"]])
+    second = rng.choice([[f"open {p}", "events"], [f"subin {p}", f"hs {p} in", "events", f"accept {p}", "events"]])
+    return ([f"disc {p}", f"conn {p} cap={rng.choice([1, 2])} drain=0", f"cfill {p}"] + first + [f"cdrain {p}"] + second
+            + [f"cdrain {p}", f"subout {p}", f"hs {p} out", "events", "state"])
+
+
+def frag_sink(p, rng):
+    """A sink clone taken while the stream is open is used after the user saw the stream closed / reopened."""
+    end = rng.choice([[f"close {p}"], [f"rclose {p} in"], [f"disc {p}", "events", f"conn {p}"], [f"rreset {p} out"]])
+    again = rng.choice([[], frag_in(p) + [f"send {p} 0b", f"ssend @{p} 0c", f"rread {p} out"]])
+    return (rng.choice([frag_in, frag_out])(p) + [f"sink {p}", f"ssend @{p} 0a", f"rread {p} out"] + end
+            + rng.choice([["events"], [f"ssend @{p} 1a", "events"]]) + [f"ssend @{p} 2a", f"sasend @{p} 3a"] + again
+            + rng.choice([[f"sdrop @{p}"], []]) + ["events", "state"])
+
+
+def frag_hs(p, rng, maxsz):
+    """Handshake limits, failures at each step of the handshake service, its timers, `set_handshake`."""
+    big = "ab" * (maxsz + 1)
+    fits = "cd" * maxsz
+    v = rng.randrange(9)
+    if v == 0:      # local handshake above the limit: refused when it is to be sent
+        return [f"seths {big}", f"open {p}", f"subout {p}", "events", "state", f"seths {fits}", f"open {p}", f"subout {p}",
+                f"rread {p} out", "state"]
+    if v == 1:      # remote's handshake above the limit on the outbound substream
+        return [f"open {p}", f"subout {p}", f"rsend {p} out {big}", "events", "state"]
+    if v == 2:      # ... on the inbound substream; exactly at the limit it is accepted
+        return [f"subin {p}", f"rsend {p} in {big}", "events", "state", f"subin {p}", f"rsend {p} in {fits}", "events", "state"]
+    if v == 3:      # accepted inbound substream, local handshake above the limit
+        return [f"subin {p}", f"hs {p} in", "events", f"seths {big}", f"accept {p}", "events", "state", "seths 01020304"]
+    if v == 4:      # timers of the handshake service
+        return [f"open {p}", f"subout {p}", f"hstimeout {p} {rng.choice(['out', 'in'])}", "events", "state"]
+    if v == 5:
+        return [f"subin {p}", f"hstimeout {p} in", "events", "state", f"open {p}", f"subout {p}", f"subin {p}",
+                f"hstimeout {p} {rng.choice(['out', 'in'])}", "events", "state"]
+    if v == 6:      # set_handshake is read when the handshake is sent
+        return ["seths 0a0b", f"open {p}", "seths 0c", f"subout {p}", f"rread {p} out", f"hs {p} out", f"subin {p}",
+                f"hs {p} in", "events", "seths -", f"accept {p}", f"rread {p} in", "events", "seths 01020304"]
+    if v == 7:      # an oversized notification in either direction ends the stream
+        return frag_in(p) + [rng.choice([f"send {p} {big}", f"rsend {p} in {big}", f"asend {p} {big}"]), "events", "state"]
+    return [f"open {p}", f"subout {p}", f"rclose {p} out", "events", f"subin {p}", f"rclose {p} in", "events", "state"]
+
+
+def frag_pileup(p, rng):
+    """The protocol loop does not run for a while: several results of the handshake service / several inputs at once.
+    Includes the history of the repaired defect (a result queued for a substream that is removed before it is
+    handed out must not be attributed to the peer's next substream)."""
+    v = rng.randrange(7)
+    if v >= 4:
+        # the connection task's close notice and the user's next open request are both waiting when the protocol loop
+        # runs again: the notice is taken first (order of the biased select!), so the request finds the peer `Closed`
+        end = rng.choice([f"rclose {p} in", f"rreset {p} out", f"rclose {p} out", f"rreset {p} in"])
+        extra = [f"send {p} 0{p}"] if end == f"rclose {p} out" else []
+        tail = rng.choice([[f"subout {p}", f"hs {p} out", f"subin {p}", f"hs {p} in", "events", f"accept {p}", "events", "state"],
+                           ["events", f"disc {p}", "events", f"conn {p}"], [f"subfail {p}", "events", "state"]])
+        return (rng.choice([frag_in, frag_out])(p) + ["phold", end] + extra + ["events", f"open {p}", "prelease", "events",
+                "state"] + tail)
+    if v == 0:
+        a, b = rng.choice([("in", "out"), ("out", "in")])
+        return [f"open {p}", f"subin {p}", f"subout {p}", "phold", f"hs {p} {a}", f"rreset {p} {b}", "prelease", "state",
+                "events", f"subin {p}", "state", "events", f"hs {p} in", "events", f"accept {p}", f"subout {p}", f"hs {p} out",
+                "events", f"rsend {p} in 5{p}", "events", "state"]
+    if v == 1:
+        a, b = rng.choice([("in", "out"), ("out", "in")])
+        return [f"open {p}", f"subin {p}", f"subout {p}", "phold", f"hs {p} {a}", f"rclose {p} {b}", "prelease", "state",
+                "events", f"open {p}", f"subout {p}", "state", f"rread {p} out", f"hs {p} out", "events", "state"]
+    if v == 2:
+        return [f"open {p}", f"subin {p}", f"subout {p}", "phold", f"hs {p} in", f"hs {p} out", "prelease", "events", "state",
+                f"accept {p}", "events"]
+    return ["phold", f"open {p}", f"subin {p}", f"hs {p} in", "prelease", "events", "state", f"accept {p}", f"subout {p}",
+            f"hs {p} out", "events", "state"]
+
+
+def frag_cmdfull(p, q, rng):
+    """The handle's command channel is full (the protocol loop does not get round to it)."""
+    return (rng.choice([["cmdfill"], ["cmdhold"]]) + [f"open {p}", f"tryopenb {p},{q}", f"openb {q},{p}", f"close {p}",
+            f"tryclosb {p},{q}", f"closeb {p}", "events", "cmdrelease", "events", "state"])
+
+
 def noise(rng, peers, stall):
     p = rng.choice(peers)
     role = rng.choice(["in", "out"])
@@ -147,6 +332,13 @@ def noise(rng, peers, stall):
     if stall:
         table += [(0.03, f"stall {p} {role}{age}"), (0.02, f"release {p} {role}{age}")]
     table += [(0.025, f"hold {p}"), (0.03, f"unhold {p}")]
+    q = rng.choice(peers)
+    k = rng.choice([0, 0, 1])
+    table += [(0.02, f"openb {p},{q}"), (0.01, f"tryopenb {q},{p}"), (0.01, f"closeb {p},{q}"), (0.01, f"tryclosb {p}"),
+              (0.015, f"sink {p}"), (0.015, f"ssend {k} 4{p}"), (0.01, f"sasend {k} 5{p}"), (0.005, f"sdrop {k}"),
+              (0.015, f"asend {p} 6{p}"), (0.01, f"hstimeout {p} {role}"), (0.008, "seths 0a0b0c"), (0.004, "seths " + "ee" * 70),
+              (0.006, f"rsend {p} {role}{age} " + "dd" * 70), (0.008, "phold"), (0.02, "prelease"), (0.004, "cmdhold"),
+              (0.012, "cmdrelease"), (0.006, f"cdrain {p}"), (0.003, f"cfill {p}")]
     tot = sum(w for w, _ in table)
     x = r * tot
     for w, op in table:
@@ -167,12 +359,34 @@ def merge(rng, seqs):
     return out
 
 
+def resolve_sinks(ops):
+    """`@p` = the number of the latest `sink p` operation before this one (every `sink` operation takes a number)."""
+    latest, n, out = {}, 0, []
+    for op in ops:
+        t = op.split()
+        if len(t) > 1 and t[1].startswith("@"):
+            t[1] = str(latest.get(t[1][1:], 0))
+            op = " ".join(t)
+        if t and t[0] == "sink" and len(t) == 2:
+            latest[t[1]] = n
+            n += 1
+        out.append(op)
+    return out
+
+
 def gen_case(rng, tier):
+    return resolve_sinks(gen_case0(rng, tier))
+
+
+def gen_case0(rng, tier):
     peers = PEERS[:rng.choice([2, 2, 3])]
     auto = rng.choice([0, 1])
     dial = rng.choice([1, 1, 0])
     stall = rng.random() < 0.08
-    ops = [f"cfg auto={auto} dial={dial}"]
+    maxsz = rng.choice([64, 64, 8, 5])
+    small = rng.random() < 0.35
+    ops = [f"cfg auto={auto} dial={dial}" + (f" max={maxsz}" if maxsz != 64 else "")
+           + (f" sync={rng.choice([1, 2, 3])} async={rng.choice([1, 2])}" if small else "")]
     style = rng.random()
     body = []
     if style < 0.75:
@@ -188,6 +402,16 @@ def gen_case(rng, tier):
                     continue
                 if r < 0.14:
                     seq += frag_held_late(p, rng)
+                    continue
+                if r < 0.44:
+                    # coverage round: the handle's batch / sink / async API, back-pressure of the command channels,
+                    # the handshake service's limits, timers and failure arms, pile-ups of the protocol loop
+                    q = rng.choice([x for x in peers if x != p])
+                    k = rng.randrange(8)
+                    seq += ([f"conn {q}"] if k in (0, 7) and rng.random() < 0.7 else []) + (
+                        frag_batch(p, q, rng) if k == 0 else frag_reuse(p, rng) if k == 1 else frag_clog(p, rng) if k == 2
+                        else frag_cfull(p, rng) if k == 3 else frag_sink(p, rng) if k == 4 else frag_hs(p, rng, maxsz)
+                        if k == 5 else frag_pileup(p, rng) if k == 6 else frag_cmdfull(p, q, rng))
                     continue
                 f = rng.choice([frag_out, frag_in, frag_simul, frag_dial])(p)
                 if rng.random() < 0.6:
@@ -216,10 +440,15 @@ def gen_case(rng, tier):
     ops += body
     if rng.random() < 0.75:
         ops += ["events"]
+        ops += ["prelease", "cmdrelease"] if any(o in ("phold", "cmdhold", "cmdfill") for o in body) else []
         for p in peers:
             ops += [f"release {p} in", f"release {p} out", f"release {p} in age=1", f"release {p} out age=1"] if stall else []
             ops += [f"unhold {p}", f"disc {p}"]
         ops += ["events", "state"]
+        if rng.random() < 0.15:
+            ops += ["shutdown"]
+    elif rng.random() < 0.3:
+        ops += ["shutdown"]
     return ops
 
 
@@ -339,6 +568,19 @@ def oracle(case, out):
     prev_events = -1            # op index of the previous `events` op
     late = set()                # the protocol reported opened / open failure for the peer while an old task was held:
                                 # its NotificationStreamClosed is late (finding late-closed-report)
+    burst = False               # the protocol loop has just worked through a backlog (`phold … prelease`): meanwhile no
+                                # connection task was polled, i.e. every task was held back for the length of the burst
+    held_qual = {}              # peer -> step of an open request sent while the protocol loop is held that must be answered
+                                # once it runs (nothing else was fed to the protocol for that peer during the hold)
+    held_touch = set()          # peers for which a negotiation may have been started while the protocol loop was held
+    held_reqs = []              # peers of the open requests the handle has sent while the adapter holds the commands back
+    cmd_held = proto_held = False   # the adapter keeps user commands from the protocol / does not poll the protocol loop
+    maxsz = 64
+    sinks = {}                  # sink number -> (peer, number of closed(peer) events the user had seen when it was taken)
+    closed_seen = {}            # peer -> number of closed(peer) events drained
+    in_pipes = {}               # peer -> inbound pipes in order of creation
+    first_frame = {}            # inbound pipe -> first frame the remote wrote on it (its handshake)
+    later_frames = {}           # peer -> frames the remote wrote on inbound pipes after the first one
 
     def v(kind, msg, i, **kw):
         d = {"kind": kind, "msg": msg, "step": i, "op": case[i] if i < len(case) else None,
@@ -373,12 +615,13 @@ def oracle(case, out):
         # an event drained now was put on the user channel after the previous drain; it overtakes the
         # NotificationStreamClosed of the old stream of `p` because of the scheduler iff the old stream's task was
         # being held back at some moment since then
-        return p in held or (p in held_since_opened and unhold_step.get(p, -1) > prev_events)
+        return p in held or (p in held_since_opened and unhold_step.get(p, -1) > prev_events) or burst
 
     for i in range(n):
         op, o = case[i], out[i]
         t = op.split()
         late_closed_now = set()
+        was_touched = False
         if not t:
             continue
         peer = int(t[1]) if len(t) > 1 and t[1].isdigit() else None
@@ -391,11 +634,92 @@ def oracle(case, out):
             continue
         if t[0] == "cfg":
             auto = 1 if "auto=1" in op else 0
+            m = re.search(r"\bmax=(\d+)", op)
+            maxsz = int(m.group(1)) if m else 64
             continue
+        if t[0] in ("cmdhold", "cmdfill"):
+            cmd_held = True
+        if t[0] == "cmdrelease":
+            cmd_held = False
+            # the open requests sent meanwhile reach the protocol now
+            for rp in held_reqs:
+                open_ok_steps.setdefault(rp, []).append(i)
+                subin_since_events.add(rp)
+                last_terminal[rp] = False
+                quiet[rp] = False
+            held_reqs = []
+        if t[0] == "phold":
+            proto_held = True
+        if t[0] == "prelease":
+            burst = burst or proto_held
+            proto_held = False
+            # what was fed to the protocol meanwhile is handled now (an `events` in between saw nothing of it)
+            for hp in held_touch:
+                subin_since_events.add(hp)
+                last_terminal[hp] = False
+                quiet[hp] = False
+            held_touch = set()
+            for hp, i0 in held_qual.items():
+                if hp not in qualifying:
+                    qualifying[hp] = (i0, re.search(r"\bopen\(%d," % hp, o) is not None or hp in nodrain)
+            held_qual = {}
+        elif proto_held and peer is not None and t[0] not in ("open", "events", "state"):
+            # anything else fed for that peer during the hold may legitimately be handled before the request
+            held_qual.pop(peer, None)
+        if t[0] == "shutdown":
+            if not o.startswith("exited"):
+                v("protocol-did-not-exit", f"the user dropped the handle but NotificationProtocol::run() did not return: {o}", i)
+            break
+        # ---- batch variants: every peer of the set that has no open stream is one open request
+        batch_peers = []
+        if t[0] in ("openb", "tryopenb") and len(t) == 2 and o.split()[0] == "ok":
+            for x in t[1].split(","):
+                if x.isdigit() and int(x) not in batch_peers and not view_open.get(int(x)):
+                    batch_peers.append(int(x))
+            for bp in batch_peers:
+                subin_since_events.add(bp)
+                last_terminal[bp] = False
+        # ---- sink clones (sink_send_after_close_fails)
+        if t[0] == "sink" and peer is not None:
+            m = re.search(r"sink=(\d+)", o)
+            if o.startswith("ok") and m:
+                sinks[int(m.group(1))] = (peer, closed_seen.get(peer, 0))
+                if not view_open.get(peer):
+                    v("sink-for-closed-stream", f"notification_sink({peer}) returned a sink although the user has not been "
+                      f"told that a stream to {peer} is open", i, peer=peer)
+            elif o.startswith("none") and view_open.get(peer):
+                v("no-sink-for-open-stream", f"notification_sink({peer}) returned None while the stream is open", i, peer=peer)
+        if t[0] in ("ssend", "sasend") and peer in sinks and o.split()[0] == "ok":
+            sp, seen = sinks[peer]
+            if closed_seen.get(sp, 0) > seen:
+                v("sink-send-after-close", f"a notification was accepted through a sink of peer {sp} taken before the user saw "
+                  f"NotificationStreamClosed({sp})", i, peer=sp)
+        # ---- what the remote writes on inbound substreams: the first frame is the handshake
+        if t[0] == "subin" and peer is not None:
+            m = re.search(r"pipe=(\d+)", o)
+            if m:
+                in_pipes.setdefault(peer, []).append(int(m.group(1)))
+        if t[0] in ("hs", "rsend") and peer is not None and len(t) > 2 and t[2] == "in" and o.split()[0] == "ok":
+            rest = t[3:]
+            age = 0
+            if rest and rest[0].startswith("age="):
+                age = int(rest[0][4:]) if rest[0][4:].isdigit() else 0
+                rest = rest[1:]
+            pl = in_pipes.get(peer, [])
+            if age < len(pl):
+                k = pl[-1 - age]
+                fr = ("aa%02x" % (k % 256)) if t[0] == "hs" else (rest[0].lower() if rest else "")
+                if k not in first_frame:
+                    first_frame[k] = fr
+                else:
+                    later_frames.setdefault(peer, set()).add(fr)
         if peer is not None and t[0] in ("subin", "open", "accept", "conn"):
             # ops that can start a negotiation round; an event drained later may predate them
             subin_since_events.add(peer)
             last_terminal[peer] = False
+            was_touched = peer in held_touch
+            if proto_held:
+                held_touch.add(peer)
         for m in STALLED.finditer(o):
             # a `Substream::close()` of a connection task of that peer is suspended (explicitly stalled close)
             taint.add(int(m.group(1)))
@@ -440,16 +764,31 @@ def oracle(case, out):
             pending_req_kind.pop(peer, None)
         if t[0] == "subout":
             pending_req_kind.pop(peer, None)
-        if t[0] == "open" and o.split()[0] == "ok":
-            open_ok_steps.setdefault(peer, []).append(i)
-            if (peer in connected and quiet.get(peer) and not view_open.get(peer) and peer not in qualifying
-                    and peer not in pending_req_kind):
+        for rp in ([peer] if t[0] == "open" and o.split()[0] == "ok" else batch_peers):
+            if cmd_held:
+                held_reqs.append(rp)
+                quiet[rp] = False
+                continue
+            open_ok_steps.setdefault(rp, []).append(i)
+            if (proto_held and not cmd_held and rp in connected and quiet.get(rp) and not view_open.get(rp)
+                    and rp not in qualifying and rp not in pending_req_kind and not was_touched and t[0] == "open"):
+                # the loop is not running, but everything it has queued for this peer (a close notice at most) is taken
+                # before the command
+                held_qual[rp] = i
+            if (rp in connected and quiet.get(rp) and not view_open.get(rp) and rp not in qualifying
+                    and rp not in pending_req_kind and not cmd_held and not proto_held):
                 # connected, nothing in progress as far as anybody can know: the request must be answered
-                has_call = CALL.search(o) is not None or peer in nodrain
-                qualifying[peer] = (i, has_call)
-            quiet[peer] = False
+                # (batch_open_answers_each: every peer of a batch is owed its own answer)
+                has_call = re.search(r"\bopen\(%d," % rp, o) is not None or rp in nodrain
+                qualifying[rp] = (i, has_call)
+            quiet[rp] = False
         # ---- user events
         for kind, p, extra in parse_events(o) if t[0] == "events" else []:
+            if kind in ("validate", "opened"):
+                hs = re.search(r"hs=([0-9a-f]*)", extra)
+                if hs and len(hs.group(1)) // 2 > maxsz:
+                    v("handshake-over-limit", f"a handshake of {len(hs.group(1)) // 2} bytes was handed to the user "
+                      f"(limit {maxsz})", i, peer=p)
             if kind == "validate":
                 last_validate_step[p] = i
                 round_answer[p] = None
@@ -482,7 +821,8 @@ def oracle(case, out):
                     v("closed-without-opened", f"stream to peer {p} reported closed but it was not open", i,
                       peer=p)
                 view_open[p] = False
-                if p in held_since_opened:
+                closed_seen[p] = closed_seen.get(p, 0) + 1
+                if p in held_since_opened or burst:
                     # the task of the old stream was held back for a while: its report may come after the next
                     # negotiation round has started (that round's bookkeeping stays; nothing is known to be quiet)
                     late_closed_now.add(p)
@@ -507,6 +847,13 @@ def oracle(case, out):
                 if not view_open.get(p):
                     v("notification-while-closed", f"notification from peer {p} delivered outside an open period", i,
                       peer=p)
+                if len(extra) // 2 > maxsz:
+                    v("oversized-notification", f"a notification of {len(extra) // 2} bytes was delivered (limit {maxsz})",
+                      i, peer=p)
+                if (extra in [first_frame.get(k) for k in in_pipes.get(p, [])]
+                        and extra not in later_frames.get(p, set())):
+                    v("handshake-delivered-as-notification", f"the first frame the remote wrote on an inbound substream of "
+                      f"peer {p} (its handshake {extra}) was delivered as a notification", i, peer=p)
         if t[0] == "events":
             for kind, p, extra in parse_events(o):
                 if kind == "closed" and p in late_closed_now:
@@ -525,6 +872,7 @@ def oracle(case, out):
                     # by the handle since then may belong to the next round already
                     boundary_step[p] = prev_events
             prev_events = i
+            burst = False
         if t[0] in ("accept", "reject"):
             quiet[peer] = False
         if t[0] in ("accept", "reject") and peer in last_validate_step and round_answer.get(peer) is None:
@@ -534,7 +882,7 @@ def oracle(case, out):
                 last_validate_step.pop(peer, None)      # the round ends silently
         # closed_on_disconnect: checked at the end (after the draining suffix)
     complete = n == len(case) and not any(x.startswith("panic") or x == "skipped" for x in out[:n])
-    if complete and final_suffix:
+    if complete and final_suffix and not proto_held and not cmd_held:
         last = len(case) - 1
         for p, is_open in view_open.items():
             # only for peers that really are disconnected at the end (a shrunk case may end with a `disc` of
